@@ -528,6 +528,7 @@ func (w *World) buildBatch(a int, sub []Op) (*consensusproto.RawRecord, effect, 
 	// builder lays the contents out does not matter for the reference model
 	seen := map[int]bool{}
 	seenAdd, seenChange, seenRemove := seen, seen, seen
+	var newInvite *InviteInfo
 	for _, s := range sub {
 		s := s
 		t := w.acc(s.Target)
@@ -613,6 +614,15 @@ func (w *World) buildBatch(a int, sub []Op) (*consensusproto.RawRecord, effect, 
 			}
 			p.InviteRevokes = append(p.InviteRevokes, inv.Id)
 			effs = append(effs, func(string) { inv.Live = false })
+		case "new_invite":
+			// a new invite created by the batch record itself: Perm None => request-to-join
+			// invite, else anyone-can-join with that permission. The list keys invites by
+			// record id, so a batch carries at most one.
+			if newInvite != nil {
+				continue
+			}
+			newInvite = &InviteInfo{Anyone: s.Perm != None, Perm: s.Perm, Live: true}
+			p.NewInvites = append(p.NewInvites, permOf(s.Perm))
 		}
 	}
 	if len(p.Removals.Identities) == 0 && len(p.Additions) > 0 {
@@ -625,12 +635,20 @@ func (w *World) buildBatch(a int, sub []Op) (*consensusproto.RawRecord, effect, 
 		p.Removals.Change = w.rotation()
 		effs = append(effs, func(string) { m.KeyGen++ })
 	}
-	if len(effs) == 0 {
+	if len(effs) == 0 && newInvite == nil {
 		return nil, nil, nil
 	}
 	res, err := w.Lists[a].RecordBuilder().BuildBatchRequest(p)
 	if err != nil {
 		return nil, nil, err
+	}
+	if newInvite != nil && len(res.Invites) == 1 {
+		inv := newInvite
+		inv.Key = res.Invites[0]
+		effs = append(effs, func(id string) {
+			inv.Id = id
+			w.Invites = append(w.Invites, inv)
+		})
 	}
 	return res.Rec, func(id string) {
 		for _, e := range effs {
